@@ -407,4 +407,10 @@ def run(ctx: Ctx):
     if mat is not None:
         c.check_report(mat)
     c.check_select()
+    # match_geometries evaluates compute_affinity for every pair (affinity.py is an anchor of this property): it must return a
+    # number for every pair -- the zero-union guards of both branches (C06's formula rules) keep degenerate pairs from dividing
+    # by zero, and a positive value only for overlapping geometries is what "paired only if the affinity is positive" means
+    from . import c06
+    with ctx.delegated("C06/"):
+        c06.run_for_detection(ctx)
     return EXPLANATION, ASSUMPTIONS
